@@ -121,6 +121,13 @@ def run_proc(argv, cwd=None, env=None, timeout=10, mem_mb=4096, stdin=None):
         to = True
     rc = p.returncode
     sig = -rc if rc is not None and rc < 0 else 0
+    # a program that loops while printing can produce hundreds of megabytes before the time limit: keep the head
+    # (a truncated output still differs from any prescribed output, and the tail of stderr carries the report)
+    CAP = 262144
+    if len(out) > CAP:
+        out = out[:CAP] + b"\n...[output truncated]\n"
+    if len(err) > 4 * CAP:
+        err = err[:CAP] + b"\n...[truncated]...\n" + err[-CAP:]
     return dict(exit=rc if rc is not None and rc >= 0 else -1, sig=sig,
                 out=out.decode("utf-8", "replace"), err=err.decode("utf-8", "replace"),
                 timeout=to, wall=time.time() - t0)
